@@ -102,3 +102,10 @@ mod standard;
 mod stats;
 mod summary;
 mod util;
+
+/// Verification hook: the bytes `util::DecimalFormatter` produces for `n`
+/// (the formatter behind the line number, column and byte offset fields).
+#[cfg(ripgrep_verif)]
+pub fn verif_decimal_formatter(n: u64) -> Vec<u8> {
+    crate::util::DecimalFormatter::new(n).as_bytes().to_vec()
+}
